@@ -18,6 +18,20 @@ type fileInfo struct {
 	dir  bool
 	link bool
 	size int64
+	real string // resolved absolute path: the identity of the file on the virtual disk
+}
+
+// SameFile reports whether the two infos describe the same file of the virtual disk.
+func SameFile(a, b FileInfo) bool {
+	x, ok1 := a.(fileInfo)
+	y, ok2 := b.(fileInfo)
+	if ok1 && ok2 {
+		return x.real != "" && x.real == y.real
+	}
+	if ok1 || ok2 {
+		return false
+	}
+	return orig.SameFile(a, b)
 }
 
 func (i fileInfo) Name() string { return i.name }
@@ -83,7 +97,7 @@ func Stat(name string) (FileInfo, error) {
 	if r.Status != 0 {
 		return nil, pathErr("stat", name, r.Status)
 	}
-	return fileInfo{name: base(name), dir: r.A == 1, size: r.B}, nil
+	return fileInfo{name: base(name), dir: r.A == 1, size: r.B, real: r.S}, nil
 }
 
 // Lstat is Stat: the virtual disk has no symbolic links.
@@ -95,7 +109,7 @@ func Lstat(name string) (FileInfo, error) {
 	if r.Status != 0 {
 		return nil, pathErr("lstat", name, r.Status)
 	}
-	return fileInfo{name: base(name), dir: r.A == 1, link: r.A == 2, size: r.B}, nil
+	return fileInfo{name: base(name), dir: r.A == 1, link: r.A == 2, size: r.B, real: r.S}, nil
 }
 
 // Readlink returns the destination of the named symbolic link of the virtual disk.
